@@ -739,11 +739,35 @@ func (x *Exec) run(fr *Frame, st0 *State) (*Val, *State) {
 		}
 		// instructions
 		terminated := false
-		for _, ins := range b.Instrs {
+		// cuts-only function: in a block none of whose successors reaches a cut, nothing after the block's last
+		// addressed call matters any more
+		stopAfter := -1
+		if cutReachSet != nil {
+			tail := true
+			for _, sc := range b.Succs {
+				if cutReachSet[sc] {
+					tail = false
+				}
+			}
+			if tail {
+				for i, ins := range b.Instrs {
+					if call, ok := ins.(*ssa.Call); ok && cutCallName(fr.contract, call) != "" && fr.contract.addresses(cutCallName(fr.contract, call)) {
+						stopAfter = i
+					}
+				}
+			}
+		}
+		for insIdx, ins := range b.Instrs {
 			if _, ok := ins.(*ssa.Phi); ok {
 				continue
 			}
 			if st.pc == False {
+				terminated = true
+				break
+			}
+			if stopAfter >= 0 && insIdx > stopAfter {
+				rets = append(rets, edgeState{b, st})
+				retVals = append(retVals, x.freshResults(st, "cutsonly", fn.Signature.Results()))
 				terminated = true
 				break
 			}
@@ -2330,4 +2354,20 @@ func (c *Contract) trivialEnsures() bool {
 		}
 	}
 	return true
+}
+
+// addresses: some `before` clause of the contract addresses calls of this name (plain or with an ordinal).
+func (c *Contract) addresses(name string) bool {
+	for _, cl := range c.Clauses {
+		if cl.Kind == "assert" || cl.Kind == "bind" {
+			n := cl.Name
+			if i := strings.IndexByte(n, '#'); i >= 0 {
+				n = n[:i]
+			}
+			if n == name {
+				return true
+			}
+		}
+	}
+	return false
 }
